@@ -301,10 +301,12 @@ func vScenarioC19(rc *runCtx) {
 	// hand-back: typed input flows again, and remote output is shown
 	upBefore := up.NSentInt()
 	termBefore := term.NSentInt()
-	in := []byte("echo typed-after-zmodem\r")
+	// the very first key after the session is a lone Ctrl-C (no remote output since the hand-back)
+	in := []byte("\x03echo typed-after-zmodem\r")
 	w.Go("probe.in", nil, func() {
 		for _, c := range in {
 			kbd.Write([]byte{c})
+			verifsim.Sleep(time.Millisecond)
 		}
 	})
 	x.settle(1 * time.Second)
